@@ -312,6 +312,37 @@ def check_reduction_caller():
     return viols
 
 
+def check_qualification_caller():
+    """Local -> full qualification of sector equations (named by the property as a caller): exactly the sector's OWN
+    local names are qualified; a bare name that is not a variable of that sector (a model-level variable, a function)
+    stays as it is - whatever other sectors, processed earlier in this or an earlier model, call their variables."""
+    from sfc_models.models import Model, Country
+    from sfc_models.sector import Sector
+    viols = []
+    for round_ in (1, 2):      # the second model is built in the same process after the first
+        m = Model()
+        c = Country(m, 'CO')
+        a = Sector(c, 'AA', has_F=False)
+        b = Sector(c, 'BB', has_F=False)
+        a.AddVariable('rate', 'local variable of AA', '0.5')
+        a.AddVariable('x', 'uses its own rate', 'rate*2 + xx')
+        a.AddVariable('xx', 'longer name', '1.0')
+        b.AddVariable('y', 'uses the model-level rate and a function', 'rate*100. + max(x_1, 2.) + "rate"')
+        b.AddVariable('x_1', 'local of BB', '3.0')
+        m.AddGlobalEquation('rate', 'model-level parameter', '0.2')
+        m._GenerateFullSectorCodes()
+        rows = dict((r[0], r[1]) for r in a._CreateFinalEquations() + b._CreateFinalEquations())
+        want = {'AA__x': ['AA__rate', '*', '2', '+', 'AA__xx'],
+                'BB__y': ['rate', '*', '100.', '+', 'max', '(', 'BB__x_1', ',', '2.', ')', '+', '"rate"']}
+        for name, toks in want.items():
+            got = scan(rows.get(name, ''))
+            if got != toks:
+                viols.append(core.violation('caller:qualification:' + ('name-of-another-sector-used' if name == 'BB__y' else 'own-name-wrong'),
+                                            'model %d: %s = %r, expected tokens %r' % (round_, name, rows.get(name), toks),
+                                            {'kind': 'qualification-caller', 'row': name}))
+    return viols
+
+
 # ---------------------------------------------------------------------------------------------
 
 def expression_sets(tier):
@@ -366,7 +397,13 @@ def run_unit(unit, tier):
         res['nontrivial'] += len(REDUCTION_EXPRS)
         core.bump(res['outcomes'], 'reduction-caller:' + ('ok' if not viols else 'violation'))
         res['violations'].extend(viols)
-        res['samples'] = [{'callers': 'Term(blob/simple)/EquationBlock.ReplaceTokensFromLookup, EquationParser.FindExactMatches', 'map': _CACHE['maps_full'][-1]}]
+        viols = check_qualification_caller()
+        res['evaluations'] += 4
+        res['nontrivial'] += 4
+        core.bump(res['outcomes'], 'qualification-caller:' + ('ok' if not viols else 'violation'))
+        res['violations'].extend(viols)
+        res['samples'] = [{'callers': 'Term(blob/simple)/EquationBlock.ReplaceTokensFromLookup, EquationParser.FindExactMatches, Sector._CreateFinalEquations',
+                           'map': _CACHE['maps_full'][-1]}]
     else:
         exprs = (full if unit['set'] == 'full' else red)[unit['start']:unit['start'] + unit['n']]
         maps = _CACHE['maps_full'] if unit['set'] == 'full' else _CACHE['maps_red']
@@ -402,6 +439,8 @@ def run_unit(unit, tier):
 
 
 def replay(case):
+    if case['kind'] == 'qualification-caller':
+        return [v for v in check_qualification_caller() if v['case']['row'] == case['row']][:1]
     if case['kind'] == 'reduction-caller':
         return [v for v in check_reduction_caller() if v['case']['expr'] == case['expr']][:1]
     if case['kind'] == 'callers':
